@@ -97,6 +97,10 @@ def build_cases(ctx):
         for _ in range(n):
             if kind in ('direct', 'pandas_direct'):
                 names = gen_names(rng, idents=True if kind == 'pandas_direct' else rng.random() < 0.9)
+                # direct mode turns every column name into a LOCAL VARIABLE of the generated loop, whose own variable is called
+                # query_context in both ports: a column of that name cannot work by the design of the mode (observation O34; found by the
+                # thorough tier, where the word list of gen_ident reaches the direct source)
+                names = [('qc_' + x if x == 'query_context' else x) for x in names]
                 if rng.random() < 0.3:
                     # column names that are spelled like positional variables (a3, b1) at some OTHER position: the name wins
                     for j in range(len(names)):
